@@ -152,6 +152,8 @@ def run_events(chk, n, tagname):
             e[:3] = [2., 4., 8.]               # energies exactly on the bin edges
             if g.uniform() < 0.6:
                 e[3] = 15.5                    # outside 0–15 keV: filtered by the constructor (otherwise nothing is filtered)
+            if g.uniform() < 0.5:
+                e[4] = float(g.choice([0.4, 13.7]))    # inside 0–15 keV but outside the 1–12 keV band of the responses: kept, and used as it is
         phi = g.uniform(-math.pi, math.pi, k)
         if k in (2, 3) and g.uniform() < 0.5:
             phi[:] = phi[0]                    # identical events
@@ -160,7 +162,7 @@ def run_events(chk, n, tagname):
         modf = lambda E: 0.1 + 0.05 * numpy.asarray(E)
         aeff = lambda E: 20. + 3. * numpy.asarray(E) ** 2
         q, u = SA.stokes_q(phi), SA.stokes_u(phi, None)       # as xpbin does: the Q, U columns are unweighted, the weights go in separately
-        edges = [2., 4., 8.]
+        edges = [2., 4., 8.] if g.uniform() < 0.7 else [0.1, 4., 14.]
         # the caller's arrays are handed over as they are (xpbin hands over the columns of the open event file): an analysis must not
         # change them, and a second analysis of the same arrays must give the same table
         q_in, u_in, e_in, w_in = q.copy(), u.copy(), e.copy(), w.copy()
@@ -190,11 +192,21 @@ def run_events(chk, n, tagname):
             flat += [f2b(q0[i]), f2b(u0[i]), f2b(e[i]), f2b(w[i]), f2b(float(modf(e[i]))), f2b(float(aeff(e[i])))]
         for j in range(2):
             drv.ask('krow %d %d %d %d %d %s' % (usew, acc, f2b(edges[j]), f2b(edges[j + 1]), len(flat), ' '.join(map(str, flat))))
+            drv.ask('garow %d %d %d %d %d %s' % (usew, acc, f2b(edges[j]), f2b(edges[j + 1]), len(flat), ' '.join(map(str, flat))))
             jobs.append((dict(n=k, weights=usew, acceptcorr=acc, bin=j, phi=phi.tolist(), energy=e.tolist(), w=w.tolist()), tab[j]))
     replies = drv.run()
-    for (desc, row), rep in zip(jobs, replies):
+    for (desc, row), rep, grep_ in zip(jobs, replies[0::2], replies[1::2]):
         wds = rep.split()
         counts = int(wds[0])
+        # the row regenerated from the vectorised source (constructor → reductions → row), in the order of the table's own columns
+        gen = dict(zip(row.colnames, [b2f(x) for x in grep_.split()]))
+        for c in row.colnames:
+            if c == 'SIGNIF' or (int(row['COUNTS']) == 0 and c in ('E_MEAN', 'MU')):
+                continue
+            if len(gen) != len(row.colnames) or not close(gen[c], float(row[c]), 1e-8, 1e-10):
+                chk.fail('correspondence', 'column %s: generated analysis %r vs implementation %r (%s)' % (c, gen.get(c), float(row[c]), {k: desc[k] for k in ('n', 'weights', 'acceptcorr', 'bin')}),
+                         dict(op='garow', column=c, generated=gen.get(c), impl=float(row[c]), **desc))
+                break
         model = dict(zip(COLS, [b2f(x) for x in wds[1:]]))
         chk.case(dict(op='events', **{k: v for k, v in desc.items() if k in ('n', 'weights', 'acceptcorr', 'bin')}, counts=counts), nontrivial=counts >= 3)
         if counts != int(row['COUNTS']):
@@ -341,7 +353,8 @@ def main(chk):
                 'acceptance correction on/off) — all columns compared with the Lean model run on Float; (c) real xpbin PCUBE files (DU, weights, acceptcorr, MC energy; an empty bin) '
                 'against the published formulae written independently with the response files named in the file; (d) the weight-scheme guard. non-trivial = I > 1 with a non-zero Stokes vector / ≥ 3 events')
     chk.assumptions = TRUSTED
-    chk.lean(['IxpeVerif.Props.C02', 'IxpeVerif.Props.Audit.C02'], ['calculate_polarization', 'calculate_stokes_errors', 'calculate_mdp99', 'calculate_n_eff'])
+    chk.lean(['IxpeVerif.Props.C02', 'IxpeVerif.Props.Audit.C02'], ['calculate_polarization', 'calculate_stokes_errors', 'calculate_mdp99', 'calculate_n_eff', 'calculate_n_eff_scalar',
+                                                                        'ana_init', 'ana_energy_mask', 'ana_weighted_average', 'ana_average_energy', 'ana_effective_mu', 'ana_sum_stokes_parameters', 'ana_w2', 'ana_table_row'])
     run_bins(chk, 600 if chk.tier == 'quick' else 20000, 'C02-bins')
     run_events(chk, 40 if chk.tier == 'quick' else 800, 'C02-events')
     run_files(chk, 'C02-files')
